@@ -27,7 +27,8 @@ ASSUMPTIONS = [
     'QR(L, M): 1 <= M <= L (the code calls sys.exit otherwise); QI(L): L >= 1; cost functions: even n >= 4, positive lam, dE, parameters for which the internal QR(d, m) is defined (d >= m)',
 ]
 OPEN_STATEMENTS = [
-    'lambda_norm_spec / one_norm_spec (lambda_norm and get_one_norm_int(_woconst) equal the 1-norm of the Jordan-Wigner coefficients for real symmetric DCH / eight-fold symmetric integrals): open as theorems (they need the Jordan-Wigner soundness results of C04); checked exactly by the Spec oracle jwOneNorm (Pauli decomposition from the Spec ladder action on all Fock states) for n <= 5 qubits (DCH) and n_orb <= 2 (3 on a sample).',
+    'lambda_norm: PROVED (lambda_norm_spec, lambda_norm_spec_flat) for every n and every real symmetric one_body / two_body: the Model of lambda_norm equals the sum of |c| over the non-identity strings of the Model of jordan_wigner(DiagonalCoulombHamiltonian) (OFV.Model.C04.jwDCH) on every exact run of the latter, all those coefficients are real, and that image acts like the Spec operator (C04 jw_dch_sound). Still open as a theorem: that this coefficient list is the Pauli decomposition in the sense of Spec.C19.jwOneNorm (orthogonality of Pauli strings under the trace); checked by the oracle jwOneNorm for n <= 5 and by the driver op c19.spec.dch_pauli_norm (hypothesis jwDCHOk + norm of the Model image) for every generated real Hamiltonian. Hermitian one_body with imaginary entries: correspondence + oracle only.',
+    'one_norm_spec (get_one_norm_int(_woconst) = 1-norm of the Jordan-Wigner coefficients for eight-fold symmetric integrals): open as a theorem; checked exactly by the Spec oracle jwOneNorm (Pauli decomposition from the Spec ladder action on all Fock states) for n_orb <= 2 (3 on a sample).',
     'mu minimal: the Model computes the least mu with eps*n*2^mu >= 1 (used by discretize_spec); minimality itself is not stated as a theorem, and the implementation returns mu+1 for eps*n = 2^-k with k in {29, 31, 39, 47, 51, 55, 58, 59, 62} because math.log(x, 2) is inexact there (not a violation of the property; such inputs are not generated).',
     'compute_cost / cost_sparse: the number of rotation bits br (arg-min of an arccos/sin expression) and np.pi are outside the theorems (parameters / rational enclosure); the ancilla counts are covered by correspondence only. cost_estimator: no Model (irrational powers); oracle stream on its integer bookkeeping and grid minimality only.',
 ]
@@ -555,6 +556,21 @@ def stream_norms(ctx, of, lcu, gon):
             terms = dch_terms(one_c, two, 0)
             orc.append(('lambda_norm differs from the 1-norm of the non-identity Jordan-Wigner coefficients',
                         {'op': 'c19.spec.jw_norm', 'n': n, 'operator': enc_ferm(terms), 'with_id': False}, exact_eq(x)))
+        if not (numpy.iscomplexobj(one_c) and one_c.imag.any()):
+            # lambda_norm_spec: on an exact run of the Model's jordan_wigner(DiagonalCoulombHamiltonian) the 1-norm of its
+            # non-identity coefficients is the Model's lambda_norm; the driver evaluates the hypothesis and that norm
+            def jw_ok(a, x=x):
+                if not isinstance(a, dict):
+                    return False
+                if a.get('ok') is not True:
+                    s.count('lambda_norm:jw-model-run-not-exact')
+                    return True
+                return a.get('real') is True and Fraction(a['norm'][0], a['norm'][1]) == x
+            s.count('lambda_norm:jw-model-norm')
+            orc.append(('lambda_norm differs from the 1-norm of the non-identity strings of the Model of '
+                        'jordan_wigner(DiagonalCoulombHamiltonian) (lambda_norm_spec)',
+                        {'op': 'c19.spec.dch_pauli_norm', 'one': [frs(r) for r in one_m.tolist()],
+                         'two': [frs(r) for r in two.tolist()], 'const': to_gq(complex(H.constant))}, jw_ok))
         b.add(case, fr(x), {'op': 'c19.lambda_norm', 'one': [frs(r) for r in one_m.tolist()], 'two': [frs(r) for r in two.tolist()]},
               orc)
     for _ in range(budget(t, 300, 1500)):
